@@ -2843,6 +2843,8 @@ func (r *Stack) Marshal(in ...any) (err error) {
 				r.stack = xs.stack
 			} else if xc.IsInit() {
 				err = errorf("Cannot Unmarshal Condition only; must envelope in Stack")
+			} else if err == nil {
+				err = errorf("Marshaler input holds no Stack or Condition")
 			}
 		} else if sc, _ := r.config(); sc.maf != nil {
 			// use the user-authored closure marshaler
@@ -2853,6 +2855,8 @@ func (r *Stack) Marshal(in ...any) (err error) {
 				r.Push(xs)
 			} else if xc.IsInit() {
 				r.Push(xc)
+			} else if err == nil {
+				err = errorf("Marshaler input holds no Stack or Condition")
 			}
 		}
 	}
